@@ -35,7 +35,7 @@ m = {
     "setup_cmd": "./setup.sh",
     "hooks": {
         "guard": "TUKAANI_PROJECT_XZ_VERIF",
-        "enable": "harness translation units #include the real /repo/src files and are compiled by goto-cc with the cmake build's -D flags plus -DTUKAANI_PROJECT_XZ_VERIF (the loop-contract macro slot VERIF_CODER_NORMAL_LOOP_CONTRACT in src/xz/coder.c is filled by harness/xz_coder_lc.c only then)",
+        "enable": "harness translation units #include the real /repo/src files and are compiled by goto-cc with the cmake build's -D flags plus -DTUKAANI_PROJECT_XZ_VERIF (the loop-contract macro slots VERIF_*_LOOP_CONTRACT in src/xz/coder.c, src/xz/file_io.c and src/xzdec/xzdec.c are filled by harness/xz_coder_lc.c, xz_io_lc.c and xzdec_lc.c only then; without the guard they do not exist)",
         "baseline_off_cmd": "cmake -G Ninja -B /repo/_build -S /repo && cmake --build /repo/_build && ctest --test-dir /repo/_build -j8 --timeout 900",
         "source_commits": hooks,
         "add_only": True,
